@@ -1,4 +1,5 @@
 import GateModel.C32.Lemmas
+import GateModel.C32.FlightKey
 /-
 C32 — Lite ping cache never serves status from before a reload.
 
@@ -206,6 +207,12 @@ theorem fetch_only_on_miss (s s' : Sys) (l : Label) (h : step s l = some s') (hn
     · cases h
   | reset => exfalso; simp only [step] at h; cases h; exact hnew rfl
   | tick a b => exfalso; simp only [step] at h; cases h; exact hnew rfl
+
+/-- the string handed to the flight group identifies (cache generation, key) uniquely — so "one flight per flight-key
+    string" (singleflight's guarantee) IS "one flight per (generation, key)" (the model's flight table) -/
+theorem flight_key_identifies_generation_and_key (g g' : Nat) (k k' : Key) (h : flightKey g k = flightKey g' k') :
+    g = g' ∧ k = k' :=
+  flightKey_injective g g' k k' h
 
 /-- Across a reset an old fetch and a new fetch for the SAME key can overlap (the flight key contains the
     cache generation).  This is what `no_stale_after_reset` requires: the old fetch cannot be cancelled and its
